@@ -81,6 +81,18 @@ theorem verdict_iff_chain_lvs (I : Inst) (hs : Lvs.sanityCheck I.model = .ok ())
   · rintro ⟨l, hl⟩
     exact ⟨_, chainD_of_chainL (fun a b => (allowed_iff_schema_link I hs hv henv a b).mpr) l o hl⟩
 
+/-- **verdict_iff_chain_compiled.** The same for a validator whose model is what the Light VerSec compiler model
+    emits for a schema (`compile S = .ok (I.model, syms)`) and the loader accepts: value-edge determinism
+    (`VDet`) is a theorem about the compiler (`C11.compiled_vdet`), so the only hypotheses left are about the
+    environment - user functions total, the signature scheme correct and unforgeable. -/
+theorem verdict_iff_chain_compiled (I : Inst) (S : Lvs.Schema) (syms : List String)
+    (hcomp : Lvs.compile S = .ok (I.model, syms)) (hs : Lvs.sanityCheck I.model = .ok ())
+    (henv : Lvs.EnvTotal I.fns) (hu : Unforgeable I.env Signed) (hc : Correct I.env Signed)
+    (fuel : Nat) (st : Cache LName) (o : Obj LName) (hinv : CacheInv I.env Signed st) (v : Verdict)
+    (h : (validate I.env fuel st o).verdict = some v) :
+    v = .accept ↔ ∃ l, LvsChain I Signed l o :=
+  verdict_iff_chain_lvs Signed I hs (Lvs.compile_vdet S I.model syms hcomp) henv hu hc fuel st o hinv v h
+
 /-- **system_verdict_iff_chain_lvs.** Several instances (different schemas / anchors, private storages),
     any interleaved history from empty storages: a verdict of instance `i` is `accept` exactly when the
     packet has a chain of links of `i`'s schema to `i`'s anchor. -/
